@@ -417,8 +417,12 @@ func runInto() {
 					}
 					if e2 != nil {
 						// regression (fixed e30143c): after a failed encode the caller's slice header must still be sane
-						if len(buf) > cap(buf) || len(buf) < 0 || !bytes.HasPrefix(buf[:min(len(buf), pre)], []byte("pqrs"[:min(len(buf), pre)])) {
-							fail("corrupt-header", fmt.Sprintf("after an EncodeInto error len(buf)=%d cap(buf)=%d: %s", len(buf), cap(buf), desc), nil, *seed, c)
+						hh := (*reflect.SliceHeader)(unsafe.Pointer(&buf))
+						if hh.Len > hh.Cap || hh.Len < 0 {
+							fail("corrupt-header", fmt.Sprintf("after an EncodeInto error len(buf)=%d (%#x) cap(buf)=%d: %s", hh.Len, uint64(hh.Len), hh.Cap, desc), nil, *seed, c)
+							hh.Len = 0
+						} else if k := min(len(buf), pre); !bytes.Equal(buf[:k], []byte("pqrs"[:k])) {
+							fail("prefix-lost", "after an EncodeInto error the bytes that were already in the caller's buffer changed: "+desc, nil, *seed, c)
 						}
 						continue
 					}
